@@ -3,7 +3,11 @@
 
 use serde::Deserialize;
 
-use crate::{absent_nullable::AbsentNullable, traits::Serial, Settings, SlinkyError};
+use crate::{
+    absent_nullable::{deserialize_non_null_string, AbsentNullable},
+    traits::Serial,
+    Settings, SlinkyError,
+};
 
 #[derive(Clone, Debug, Eq, PartialEq, Hash, Ord, PartialOrd)]
 pub struct RequiredSymbol {
@@ -19,6 +23,7 @@ pub struct RequiredSymbol {
 #[derive(Deserialize, PartialEq, Debug)]
 #[serde(deny_unknown_fields)]
 pub(crate) struct RequiredSymbolSerial {
+    #[serde(deserialize_with = "deserialize_non_null_string")]
     pub name: String,
 
     #[serde(default)]
